@@ -12,7 +12,7 @@ sed -i "s|=> /repo|=> $wt|" $tmp/harness/go.mod
 mkdir -p $tmp/verif/evidence
 cp /verif/checks.json /verif/known_findings.json $tmp/verif/
 cp -r /verif/kernels $tmp/verif/
-VERIF_REPO=$wt VERIF_HARNESS=$tmp/harness VERIF_DIR=$tmp/verif /verif/bin/gjv check $c --tier quick "$@" 2>&1 | sed "s|$tmp/verif|/verif|g; s|$wt|/repo|g" | cut -c1-400
+VERIF_REPO=$wt VERIF_HARNESS=$tmp/harness VERIF_DIR=$tmp/verif ${GJV:-/verif/bin/gjv} check $c --tier quick "$@" 2>&1 | sed "s|$tmp/verif|/verif|g; s|$wt|/repo|g" | cut -c1-400
 rc=${PIPESTATUS[0]}
 rm -rf $tmp
 git -C /repo worktree remove --force $wt
